@@ -24,7 +24,7 @@ TStep == /\ l <= Len(Ev) /\ l' = l + 1 /\ UNCHANGED t
             CASE e.a \in {"recv", "poll", "eof", "proc"} -> ~isclosed /\ UNCHANGED <<isclosed, acked>>
               [] e.a = "send" -> ~isclosed /\ WellFramed(e.b) /\ acked' = (acked \/ AckWrite(e.b)) /\ UNCHANGED isclosed
               [] e.a = "close" -> ~isclosed /\ isclosed' = TRUE /\ UNCHANGED acked
-              [] e.a = "exc" -> isclosed /\ UNCHANGED <<isclosed, acked>>
+              [] e.a \in {"exc", "conns-left"} -> isclosed /\ UNCHANGED <<isclosed, acked>>
               [] OTHER -> FALSE
 TSpec == TInit /\ [][TStep]_hvars
 Verdict == (l <= Len(Ev) /\ ~ENABLED TStep) => PrintT(ToJson([tid |-> t, at |-> l, why |-> (IF Ev[l].a = "send" THEN "malformed-reply-frame" ELSE "activity-after-close-or-leftover:" \o Ev[l].a)]))
